@@ -64,7 +64,7 @@ class C18(vlib.Driver):
     pid = "C18"
     preamble = "From Coq Require Import ZArith QArith.\nFrom AgileV Require Import C18.Model C18.Check.\nOpen Scope Q_scope."
     rule = ("cases = (num_atoms, v_min, v_max, gamma, n_step, target mode, batch, per-row reward class and done flag) on real "
-            "RainbowDQN agents with random tiny noisy networks; key = (N, range, gamma, n_step, mode, B, reward classes, done flags). "
+            "RainbowDQN agents with random tiny noisy networks; key = (N, range, gamma, n_step, mode, B, reward classes, done flags, importance weights and their shape). "
             "Non-trivial = at least one row whose target does not map onto a single interior atom (not done with gamma > 0, "
             "or reward outside / at an end of the support).")
     trusted_base = ["hand-written model coq/theories/C18/Model.v and comparison functions C18/Check.v (float32-vs-exact tolerances computed in Q)",
@@ -74,7 +74,9 @@ class C18(vlib.Driver):
                    "num_atoms >= 2 and v_min < v_max (guards of the theorems)",
                    "float32 arithmetic of the implementation vs exact Q of the model: compared up to delta_b = 2^-19 (Mag/delta_z + N) on the fractional index",
                    "torch.index_add_ accumulates every (index, value) pair and raises on an out-of-range index (modelled)",
-                   "softmax / log_softmax / network forward are opaque: their float32 outputs are inputs of the model"]
+                   "softmax / log_softmax / network forward are opaque: their float32 outputs are inputs of the model",
+                   "importance weights are not an input of the model: learn_priorities is weight-independent (that is the property); "
+                   "learn(per=True) is driven with non-uniform weights of shape (B,1) and (B,) in ~70 % of the cases"]
     shard = 12
 
     # ---------------------------------------------------------------- generation
@@ -93,9 +95,18 @@ class C18(vlib.Driver):
                     cls = "on_atom"
                 r, d = make_reward(rng, cls, N, float(vmin), float(vmax), g)
                 rows.append({"r": r, "d": d, "a": rng.randrange(A), "cls": cls})
+        # importance weights as PrioritizedReplayBuffer.sample delivers them: dyadic values in (0, 1], a (B,1) column
+        # (or flat (B,)); about 30 % of the cases keep the all-ones weights of a freshly filled buffer
+        if rng.random() < 0.3:
+            weights = [1.0] * B
+        else:
+            weights = [rng.choice([1.0, 0.5, 0.25, 0.75, 0.125, 0.375, 0.0625]) for _ in range(B)]
+            if all(w == 1.0 for w in weights):
+                weights[rng.randrange(B)] = 0.5
         return {"N": N, "vmin": vmin, "vmax": vmax, "B": B, "A": A, "gamma": gamma, "nstep": nstep, "mode": mode,
                 "prior_eps": rng.choice([1e-6, 1e-6, 0.01]), "partial": rng.random() < 0.5,
-                "net_seed": rng.randrange(10 ** 6), "rows1": rows1, "rowsn": rowsn}
+                "net_seed": rng.randrange(10 ** 6), "rows1": rows1, "rowsn": rowsn,
+                "weights": weights, "wshape": rng.choice(["col", "col", "flat"])}
 
     def generate(self, tier, rng):
         cases = []
@@ -122,7 +133,18 @@ class C18(vlib.Driver):
         return cases
 
     # ---------------------------------------------------------------- implementation
-    def build(self, case):
+    @staticmethod
+    def case_weights(case):
+        return list(case.get("weights") or [1.0] * case["B"])
+
+    @staticmethod
+    def other_weights(ws):
+        """a different weight vector for the weight-independence clause"""
+        if any(w != 1.0 for w in ws):
+            return [1.0] * len(ws)
+        return [0.5 / (1 + (k % 3)) for k in range(len(ws))]
+
+    def build(self, case, weights=None):
         torch.manual_seed(case["net_seed"])
         N, A, B = case["N"], case["A"], case["B"]
         obs_space = spaces.Box(-1, 1, (OBS_DIM,), dtype=np.float32)
@@ -138,13 +160,17 @@ class C18(vlib.Driver):
                 for p in net.parameters():
                     p.add_(0.6 * torch.randn_like(p))
 
+        ws = self.case_weights(case) if weights is None else weights
+        wt = torch.tensor(ws, dtype=torch.float32)
+        wt = wt.reshape(B, 1) if case.get("wshape", "col") == "col" else wt.reshape(B)
+
         def batch(rows):
             return TensorDict({
                 "obs": torch.randn(B, OBS_DIM), "next_obs": torch.randn(B, OBS_DIM),
                 "action": torch.tensor([[r["a"]] for r in rows], dtype=torch.long),
                 "reward": torch.tensor([[r["r"]] for r in rows], dtype=torch.float32),
                 "done": torch.tensor([[float(r["d"])] for r in rows], dtype=torch.float32),
-                "weights": torch.ones(B, 1), "idxs": torch.arange(B)}, batch_size=[B])
+                "weights": wt, "idxs": torch.arange(B)}, batch_size=[B])
         return ag, batch(case["rows1"]), batch(case["rowsn"])
 
     @staticmethod
@@ -205,6 +231,17 @@ class C18(vlib.Driver):
             obs["loss"] = float(loss)
         except Exception as e:  # noqa: BLE001
             obs["errors"]["learn"] = f"{type(e).__name__}: {e}"[:300]
+        # the same agent and batches rebuilt from the same seed, learn() called with different importance weights:
+        # the returned priorities must not depend on the weights
+        obs["weights"] = self.case_weights(case)
+        obs["weights_alt"] = self.other_weights(obs["weights"])
+        obs["prio_alt"] = None
+        try:
+            ag2, c1, cn = self.build(case, weights=obs["weights_alt"])
+            _l, _i, prio2 = ag2.learn(c1.clone(), n_experiences=(cn.clone() if case["mode"] != "one" else None), per=True)
+            obs["prio_alt"] = [float(x) for x in np.asarray(prio2).reshape(-1)]
+        except Exception as e:  # noqa: BLE001
+            obs["errors"]["learn_alt"] = f"{type(e).__name__}: {e}"[:300]
         return obs
 
     # ---------------------------------------------------------------- model term
@@ -318,14 +355,24 @@ class C18(vlib.Driver):
                         if abs(obs["prio"][k] - want) > 1e-4 * (1.0 + scale):
                             out.append(Violation("priority", f"priority:{case['mode']}",
                                                  f"row {k}: new priority {obs['prio'][k]!r} but cross-entropy(projection, log p(action)) + prior_eps = {want!r} "
-                                                 f"(mode {case['mode']}, n_step {case['nstep']}) [{tag}]"))
+                                                 f"(mode {case['mode']}, n_step {case['nstep']}, importance weights {obs.get('weights')} "
+                                                 f"shape {case.get('wshape', 'col')}) [{tag}]"))
                             break
+        # the priority is the plain cross-entropy: it does not depend on the importance weights of the batch
+        if obs["prio"] is not None and obs.get("prio_alt") is not None:
+            a, b = np.asarray(obs["prio"], dtype=np.float64), np.asarray(obs["prio_alt"], dtype=np.float64)
+            if a.shape != b.shape or np.abs(a - b).max() > 1e-5 * (1.0 + np.abs(a).max()):
+                out.append(Violation("priority-weight-independent", f"priority-weights:{case['mode']}",
+                                     f"learn(per=True) on the same agent and batch returns priorities {a.tolist()} with importance weights "
+                                     f"{obs.get('weights')} but {b.tolist()} with weights {obs.get('weights_alt')} "
+                                     f"(shape {case.get('wshape', 'col')}, mode {case['mode']}, n_step {case['nstep']}) [{tag}]"))
         return out
 
     # ---------------------------------------------------------------- evidence helpers
     def key(self, case):
         k = (case["N"], case["vmin"], case["vmax"], case["gamma"], case["nstep"], case["mode"], case["B"],
-             tuple((r["cls"], r["d"]) for r in case["rows1"]), tuple((r["cls"], r["d"]) for r in case["rowsn"]))
+             tuple((r["cls"], r["d"]) for r in case["rows1"]), tuple((r["cls"], r["d"]) for r in case["rowsn"]),
+             tuple(self.case_weights(case)), case.get("wshape", "col"))
         return repr(k)
 
     def row_branches(self, case, row, g):
@@ -358,7 +405,9 @@ class C18(vlib.Driver):
 
     def classify(self, case, obs):
         labs = [f"N={case['N']}", f"range=({case['vmin']},{case['vmax']})", f"mode={case['mode']}", f"nstep={case['nstep']}",
-                f"gamma={case['gamma']}", f"B={case['B']}", f"A={case['A']}", f"partial_net_config={case['partial']}"]
+                f"gamma={case['gamma']}", f"B={case['B']}", f"A={case['A']}", f"partial_net_config={case['partial']}",
+                "weights=" + ("ones" if all(w == 1.0 for w in self.case_weights(case)) else "non-uniform"),
+                f"weights-shape={case.get('wshape', 'col')}"]
         br = set()
         for rows, g in ((case["rows1"], case["gamma"]), (case["rowsn"], case["gamma"] ** case["nstep"])):
             for r in rows:
